@@ -354,6 +354,11 @@ theorem header_length_le (cls : Nat) (c : Bool) (tag len : Nat) : (header cls c 
   have := lenPart_length_le len
   omega
 
+/-- the element handed on by `enter` is the element itself when nothing follows it -/
+theorem take_tlv (cls : Nat) (c : Bool) (tag : Nat) (content : Bytes) :
+    (tlv cls c tag content).take ((header cls c tag content.length).length + content.length) = tlv cls c tag content :=
+  List.take_of_length_le (by rw [tlv_length]; exact Nat.le_refl _)
+
 /-- what `enter` returns on an element the encoder finished, for a type that is not a CHOICE and whose
     universal tag is `tag` -/
 theorem enter_finish (t : Ty) (p : Params) (c : Bool) (tag : Nat) (content : Bytes)
@@ -372,7 +377,7 @@ theorem enter_finish (t : Ty) (p : Params) (c : Bool) (tag : Nat) (content : Byt
     have hpar := tlv_parse 0 c tag content [] (by decide) htag (by omega)
     rw [List.append_nil] at hpar
     rw [hpar]
-    simp only [tlv_length, Nat.lt_irrefl, gt_iff_lt, if_false]
+    simp only [tlv_length, Nat.lt_irrefl, gt_iff_lt, if_false, take_tlv]
     have htok : tagOk t p ⟨0, c, tag, content.length, (header 0 c tag content.length).length⟩ = true := by
       simp [tagOk, hp, hexp]
     have hnu : needsUnwrap t p = false := by simp [needsUnwrap, hp]
@@ -391,7 +396,7 @@ theorem enter_finish (t : Ty) (p : Params) (c : Bool) (tag : Nat) (content : Byt
       have hpar := tlv_parse 2 true n (tlv 0 c tag content) [] (by decide) hn' hin
       rw [List.append_nil] at hpar
       rw [hpar]
-      simp only [tlv_length, Nat.lt_irrefl, gt_iff_lt, if_false]
+      simp only [tlv_length, Nat.lt_irrefl, gt_iff_lt, if_false, take_tlv]
       have htok : tagOk t p ⟨2, true, n, (header 0 c tag content.length).length + content.length,
           (header 2 true n ((header 0 c tag content.length).length + content.length)).length⟩ = true := by
         simp [tagOk, hp]
@@ -407,12 +412,15 @@ theorem enter_finish (t : Ty) (p : Params) (c : Bool) (tag : Nat) (content : Byt
         unfold tlv at this ⊢
         simp only [List.length_append] at this ⊢
         exact this
-      rw [hsub]
+      have htk : List.take ((header 2 true n ((header 0 c tag content.length).length + content.length)).length +
+            ((header 0 c tag content.length).length + content.length)) (tlv 2 true n (tlv 0 c tag content)) =
+          tlv 2 true n (tlv 0 c tag content) := List.take_of_length_le (by simp [tlv_length])
+      rw [htk, hsub]
       simp only
       have hpar2 := tlv_parse 0 c tag content [] (by decide) htag (by omega)
       rw [List.append_nil] at hpar2
       rw [hpar2]
-      simp only [tlv_length, Nat.lt_irrefl, gt_iff_lt, if_false]
+      simp only [tlv_length, Nat.lt_irrefl, gt_iff_lt, if_false, take_tlv]
       have htok2 : tagOk t { p with tagNumber := none, explicit := false }
           ⟨0, c, tag, content.length, (header 0 c tag content.length).length⟩ = true := by
         simp [tagOk, hexp']
@@ -425,7 +433,7 @@ theorem enter_finish (t : Ty) (p : Params) (c : Bool) (tag : Nat) (content : Byt
       have hpar := tlv_parse 2 c n content [] (by decide) hn' (by omega)
       rw [List.append_nil] at hpar
       rw [hpar]
-      simp only [tlv_length, Nat.lt_irrefl, gt_iff_lt, if_false]
+      simp only [tlv_length, Nat.lt_irrefl, gt_iff_lt, if_false, take_tlv]
       have htok : tagOk t p ⟨2, c, n, content.length, (header 2 c n content.length).length⟩ = true := by
         simp [tagOk, hp]
       have hnu : needsUnwrap t p = false := by simp [needsUnwrap, hp, hex]
@@ -574,7 +582,7 @@ theorem enter_finish' (t : Ty) (p : Params) (c : Bool) (tag : Nat) (content : By
     have hpar := tlv_parse 0 c tag content [] (by decide) htag (by omega)
     rw [List.append_nil] at hpar
     rw [hpar]
-    simp only [tlv_length, Nat.lt_irrefl, gt_iff_lt, if_false]
+    simp only [tlv_length, Nat.lt_irrefl, gt_iff_lt, if_false, take_tlv]
     have htok : tagOk t p ⟨0, c, tag, content.length, (header 0 c tag content.length).length⟩ = true := by
       rcases hexp with h | h <;> simp [tagOk, hp, h]
     have hnu : needsUnwrap t p = false := by simp [needsUnwrap, hp]
@@ -591,7 +599,7 @@ theorem enter_finish' (t : Ty) (p : Params) (c : Bool) (tag : Nat) (content : By
       have hpar := tlv_parse 2 true n (tlv 0 c tag content) [] (by decide) hn' hin
       rw [List.append_nil] at hpar
       rw [hpar]
-      simp only [tlv_length, Nat.lt_irrefl, gt_iff_lt, if_false]
+      simp only [tlv_length, Nat.lt_irrefl, gt_iff_lt, if_false, take_tlv]
       have htok : tagOk t p ⟨2, true, n, (header 0 c tag content.length).length + content.length,
           (header 2 true n ((header 0 c tag content.length).length + content.length)).length⟩ = true := by
         simp [tagOk, hp]
@@ -607,12 +615,15 @@ theorem enter_finish' (t : Ty) (p : Params) (c : Bool) (tag : Nat) (content : By
         unfold tlv at this ⊢
         simp only [List.length_append] at this ⊢
         exact this
-      rw [hsub]
+      have htk : List.take ((header 2 true n ((header 0 c tag content.length).length + content.length)).length +
+            ((header 0 c tag content.length).length + content.length)) (tlv 2 true n (tlv 0 c tag content)) =
+          tlv 2 true n (tlv 0 c tag content) := List.take_of_length_le (by simp [tlv_length])
+      rw [htk, hsub]
       simp only
       have hpar2 := tlv_parse 0 c tag content [] (by decide) htag (by omega)
       rw [List.append_nil] at hpar2
       rw [hpar2]
-      simp only [tlv_length, Nat.lt_irrefl, gt_iff_lt, if_false]
+      simp only [tlv_length, Nat.lt_irrefl, gt_iff_lt, if_false, take_tlv]
       have htok2 : tagOk t { p with tagNumber := none, explicit := false }
           ⟨0, c, tag, content.length, (header 0 c tag content.length).length⟩ = true := by
         unfold untagged at hexp'
@@ -627,7 +638,7 @@ theorem enter_finish' (t : Ty) (p : Params) (c : Bool) (tag : Nat) (content : By
       have hpar := tlv_parse 2 c n content [] (by decide) hn' (by omega)
       rw [List.append_nil] at hpar
       rw [hpar]
-      simp only [tlv_length, Nat.lt_irrefl, gt_iff_lt, if_false]
+      simp only [tlv_length, Nat.lt_irrefl, gt_iff_lt, if_false, take_tlv]
       have htok : tagOk t p ⟨2, c, n, content.length, (header 2 c n content.length).length⟩ = true := by
         simp [tagOk, hp]
       have hnu : needsUnwrap t p = false := by simp [needsUnwrap, hp, hex]
